@@ -359,6 +359,7 @@ func c12StepOnce(rec *vcommon.Rec, domain string, plan *c12StepPlan, qtype uint1
 	}
 	if queries > c12StepQueryCap {
 		rec.Stat("steps_handshakes_stopped_at_the_request_cap", 1)
+		rec.Seen("steps_plans_stopped_at_the_request_cap(not judged here: C11)", plan.String())
 	}
 	return counts
 }
